@@ -2,5 +2,6 @@
 # run_all.sh [tier] — run every claimed check (4 in parallel) and print one line each.
 tier=${1:-quick}
 cd "$(dirname "$0")/.."
+mkdir -p .work
 ids=$(python3 -c "import json;print(' '.join(c['property_id'] for c in json.load(open('MANIFEST.json'))['checks']))")
 echo $ids | tr ' ' '\n' | xargs -P 4 -I{} sh -c "./check {} --tier $tier > .work/all-{}.log 2>&1; echo \"rc=\$? \$(grep -E '^\[' .work/all-{}.log | tail -1) \$(grep -c '^VIOLATION' .work/all-{}.log) violation line(s)\""
